@@ -128,12 +128,15 @@ def main() -> int:
     for _ in range(1500 if not thorough else 15000):
         s = "".join(rng.choice(alpha) for _ in range(rng.randint(0, 40)))
         args.append((s, False, rng.random() < 0.5))
-    for s in ["", "\n", "\n\n\nabc", "abc\n\n\n", "\r\nabc\r\n", "'unterminated", '"""unterminated', "/* unterminated", "// no newline at end", "'''a'b'''", '"a\\"b"', "0779j", "00", ".5.5", "5", " 5", "if0 iff if", "for_actor forever for", "break_loop break", "menu2 menu", "§l @l $v ~m"]:
+    for s in ["", "\n", "\n\n\nabc", "abc\n\n\n", "\r\nabc\r\n", "'unterminated", '"""unterminated', "/* unterminated", "// no newline at end", "'''a'b'''", '"a\\"b"', "0779j", "00", ".5.5", "5", " 5", "if0 iff if", "for_actor forever for", "break_loop break", "menu2 menu", "§l @l $v ~m",
+              # long names in every position (a rule with nested quantifiers needs exponential time on them)
+              "A" * 64, "a_long_identifier_" * 4 + " x", "def 0 { op(" + "VERY_LONG_CONSTANT_NAME_" * 3 + "); }", "coro " + "LongCoroutineName" * 4 + " { end; }",
+              "$" + "variable_name_" * 5 + " = 1;", "@" + "label" * 12 + ";", "~" + "macro" * 12 + "(1);", "x" * 40 + "(1);", "0" * 50, "1" * 40 + ".5", "_" * 70]:
         args.append((s, False, True))
         args.append((s, False, False))
     # termination first, on a small probe (the hand-picked texts incl. unterminated strings / comments, and a few hundred of the
     # others): a lexer that does not terminate on a class of inputs would make the full run wait 10 s for thousands of cases
-    probe = args[-42:] + args[n_exh:n_exh + 40] + args[::max(1, len(args) // 300)]
+    probe = args[-64:] + args[n_exh:n_exh + 40] + args[::max(1, len(args) // 300)]
     hung = [a for a, r in zip(probe, pmap(lex_case, probe, limit=10.0, chunk=4)) if r.get("_timeout")]
     if hung:
         for a in hung[:10]:
